@@ -512,4 +512,205 @@ Proof.
   - contradiction.
 Qed.
 
+(* ---- Request::poll_output as an operation on the Request ---- *)
+Lemma poll_output_acct fuel r w p r1 w1 : poll_output fuel r w = (p, r1, w1) -> pinv (rsp r) ->
+  (length (wscript w) + 1 < fuel)%nat ->
+  acct [] r w [] r1 w1 /\ remaining w1 = remaining w /\
+  stream_buffer (rsp r1) = stream_buffer (rsp r) /\ sinput_space (rsp r1) = sinput_space (rsp r) /\
+  rwriteable r1 = rwriteable r /\
+  (forall e, err_at (abs (rsp r)) e -> err_at (abs (rsp r1)) e) /\ (eos (abs (rsp r)) -> eos (abs (rsp r1))) /\
+  (output_buffer (rsp r) = [] -> p = PReady (inl tt) /\ w1 = w /\ rsp r1 = rsp r) /\
+  match p with
+  | PReady (inl _) => output_buffer (rsp r1) = []
+  | PReady (inr k) => k = EK_WriteZero \/ k = EK_Transport
+  | PWake => True
+  | PBlock => False
+  end.
+Proof.
+  intros E Hinv Hf.
+  destruct (poll_output_abs _ _ _ _ _ _ E Hinv Hf) as (fl & P1 & P2 & P3 & P4 & P5 & P6 & P7 & P8 & P9 & P10 & P11 & P12).
+  pose proof (same_but_io_remaining _ _ P2) as Prem.
+  split; [|split; [exact Prem|split; [exact P6|split; [exact P7|split; [exact P11|split; [|split; [|split; [|exact P12]]]]]]]].
+  - constructor.
+    + exact P10.
+    + exact P8.
+    + exact P9.
+    + exists []. rewrite Prem. reflexivity.
+    + exact P3.
+    + rewrite Prem, P5, K_set_out. reflexivity.
+    + exists fl. split; [exact P1|]. rewrite Prem, P5. apply R_split. exact P4.
+  - intros e He. rewrite P5. exact He.
+  - intros He. rewrite P5. exact He.
+  - intros Ho. destruct fuel as [|f]; [lia|]. cbn [poll_output] in E. rewrite Ho in E.
+    injection E as <- <- <-. cbn [rsp]. repeat split.
+Qed.
+
+(* does poll_input reach the parser, or is it answered from the stream buffer / trivially? *)
+Definition poll_parses (dest : option N) (r : rstate) : bool :=
+  match dest, stream_buffer (rsp r) with
+  | Some 0, _ => false
+  | _, [] => true
+  | _, _ :: _ => false
+  end.
+
+Definition pi_case (dest : option N) (dl : bytes) (r : rstate) (p : Conn.pres (N * bytes + N)) (r' : rstate) (w' : world) : Prop :=
+  match p with
+  | PReady (inl (n, b)) =>
+      dl = b /\
+      match dest with
+      | Some c => len b = n /\ n <= c /\ (0 < c -> n = 0 -> eos (abs (rsp r')) /\ stream_buffer (rsp r') = [])
+      | None => b = [] /\ exists d, stream_buffer (rsp r') = stream_buffer (rsp r) ++ d /\ n = len d
+      end
+  | PReady (inr k) =>
+      (exists e, k = perr_kind e /\ err_at (abs (rsp r')) e /\ (e = EAbortRequest \/ exists v, e = EUnknownVersion v) /\
+                 (dest = None -> dl = []) /\ (forall c, dest = Some c -> len dl <= c)) \/
+      (dl = [] /\ k = EK_UnexpectedEof /\ output_buffer (rsp r') = [] /\
+         (remaining w' = [] \/ sinput_space (rsp r') = 0)) \/
+      (dl = [] /\ (k = EK_WriteZero \/ k = EK_Transport))
+  | PWake => dl = [] /\ stream_buffer (rsp r) = [] /\ stream_buffer (rsp r') = []
+  | PBlock => dl = [] /\ output_buffer (rsp r') = [] /\ stream_buffer (rsp r) = [] /\ stream_buffer (rsp r') = [] /\ gated w'
+  end.
+
+Lemma pi_case_transfer dest dl r1 r p r' w' : stream_buffer (rsp r1) = stream_buffer (rsp r) ->
+  pi_case dest dl r1 p r' w' -> pi_case dest dl r p r' w'.
+Proof. intros E. unfold pi_case. rewrite E. exact (fun H => H). Qed.
+
+(* a zero-length read changes nothing at all *)
+Lemma poll_input_zero fuel r w : poll_input maxc fuel (Some 0) r w = (PReady (inl (0, [])), r, w).
+Proof. unfold poll_input. destruct (stream_buffer (rsp r)); reflexivity. Qed.
+
+(* items 1, 2a, 3, 4 for one call of poll_input *)
+Theorem poll_input_reads fuel dest r w p r' w' :
+  pinv (rsp r) -> bytes_ok (remaining w) -> (length (wscript w) + length (remaining w) + 2 <= fuel)%nat ->
+  poll_input maxc fuel dest r w = (p, r', w') ->
+  exists dl, acct [] r w dl r' w' /\ pi_case dest dl r p r' w' /\
+             rwriteable r' = rwriteable r || (poll_parses dest r && is_inl p && is_final_stream r).
+Proof.
+  intros Hinv Hrem Hf E.
+  assert (EMPTY : stream_buffer (rsp r) = [] -> poll_parses dest r = true ->
+    (match poll_output fuel r w with
+     | (PReady (inl _), r1, w1) => input_loop maxc fuel dest [] r1 w1
+     | (PReady (inr k), r1, w1) => (PReady (inr k), r1, w1)
+     | (PWake, r1, w1) => (PWake, r1, w1)
+     | (PBlock, r1, w1) => (PBlock, r1, w1)
+     end) = (p, r', w') ->
+    exists dl, acct [] r w dl r' w' /\ pi_case dest dl r p r' w' /\
+               rwriteable r' = rwriteable r || (poll_parses dest r && is_inl p && is_final_stream r)).
+  { intros Esb Hpp E1. rewrite Hpp. cbn [andb].
+    destruct (poll_output fuel r w) as [[po r1] w1] eqn:EPO.
+    destruct (poll_output_acct _ _ _ _ _ _ EPO Hinv ltac:(lia)) as (A1 & Q1 & Q2 & Q3 & Q4 & _ & _ & _ & Q5).
+    assert (NOINL : forall q, rwriteable r1 = rwriteable r || (false && q)) by (intros q; rewrite orb_false_r; exact Q4).
+    rewrite Esb in Q2.
+    destruct po as [[u|k]| |].
+    - destruct (acct_len _ _ _ _ _ _ A1) as [L1 L2].
+      destruct (input_loop_reads fuel dest [] r1 w1 p r' w' (ac_inv _ _ _ _ _ _ A1) (acct_bytes_ok _ _ _ _ _ _ A1 Hrem)
+                  ltac:(constructor) ltac:(rewrite len_nil; lia) ltac:(intros _; exact Q2) ltac:(lia) E1) as (dl & A2 & C & W).
+      exists dl. split; [change dl with ([] ++ dl); eapply acct_trans0; eassumption|]. split.
+      + unfold il_case in C. unfold pi_case. rewrite Esb. rewrite Q2 in C.
+        destruct p as [[[n b]|k]| |].
+        * destruct C as (C1 & C2 & C3). split; [exact C1|]. destruct dest as [c|].
+          -- destruct C3 as (C3 & C4 & C5). split; [exact C3|]. split; [exact C4|]. intros _ Hn. split; [apply C2; exact Hn|exact C5].
+          -- exact C3.
+        * exact C.
+        * destruct C as (C1 & C2). split; [exact C1|]. split; [reflexivity|exact C2].
+        * destruct C as (C1 & C2 & C3 & C4). split; [exact C1|]. split; [exact C2|]. split; [reflexivity|]. split; [exact C3|exact C4].
+      + rewrite W, Q4. f_equal. f_equal. apply is_final_stream_eq; [apply (ac_req _ _ _ _ _ _ A1)|apply (ac_stream _ _ _ _ _ _ A1)].
+    - injection E1 as <- <- <-. exists []. split; [exact A1|]. split; [|apply NOINL].
+      cbn [pi_case]. right. right. split; [reflexivity|exact Q5].
+    - injection E1 as <- <- <-. exists []. split; [exact A1|]. split; [|apply NOINL].
+      cbn [pi_case]. split; [reflexivity|]. split; [exact Esb|exact Q2].
+    - contradiction. }
+  destruct dest as [[|pc]|].
+  - rewrite poll_input_zero in E. injection E as <- <- <-. exists []. split; [apply acct_refl; exact Hinv|]. split.
+    + cbn [pi_case]. rewrite len_nil. split; [reflexivity|]. split; [reflexivity|]. split; [lia|]. intros H; lia.
+    + unfold poll_parses. cbn [andb]. rewrite orb_false_r. reflexivity.
+  - unfold poll_input in E. cbv zeta in E. destruct (stream_buffer (rsp r)) as [|x sb] eqn:Esb.
+    + apply EMPTY; [reflexivity|unfold poll_parses; rewrite Esb; reflexivity|exact E].
+    + cbv beta iota in E. injection E as <- <- <-.
+      set (c := N.pos pc). set (n := N.min c (len (x :: sb))).
+      assert (Hn : 0 < n /\ n <= c /\ n <= len (x :: sb)) by (subst n c; rewrite len_cons; lia).
+      destruct Hinv as [HRI HI].
+      pose proof (consume_stream_abs (rsp r) n HRI) as CA.
+      destruct (consume_stream_law maxc (abs (rsp r)) n (remaining w)) as (CK & CR & _).
+      change (a_parsed (abs (rsp r))) with (stream_buffer (rsp r)) in CK. rewrite Esb in CK.
+      replace (N.min n (len (x :: sb))) with n in CK by lia.
+      exists (take n (x :: sb)). split; [|split].
+      * constructor; cbn [rsp app].
+        -- split; [apply consume_stream_RI; exact HRI|rewrite CA; apply consume_stream_inv; exact HI].
+        -- reflexivity.
+        -- reflexivity.
+        -- exists []. reflexivity.
+        -- apply suffix_refl.
+        -- rewrite CA. exact CK.
+        -- exists []. rewrite app_nil_r. split; [reflexivity|]. rewrite CA, CR. reflexivity.
+      * cbn [pi_case]. split; [reflexivity|]. rewrite len_take. split; [lia|]. split; [lia|]. intros _ H0. lia.
+      * unfold poll_parses. rewrite Esb. cbn [rwriteable andb]. rewrite orb_false_r. reflexivity.
+  - unfold poll_input in E. cbv zeta in E. destruct (stream_buffer (rsp r)) as [|x sb] eqn:Esb.
+    + apply EMPTY; [reflexivity|unfold poll_parses; rewrite Esb; reflexivity|exact E].
+    + cbv beta iota in E. injection E as <- <- <-. exists []. split; [apply acct_refl; exact Hinv|]. split.
+      * cbn [pi_case]. split; [reflexivity|]. split; [reflexivity|]. exists []. split; [symmetry; apply app_nil_r|reflexivity].
+      * unfold poll_parses. rewrite Esb. cbn [andb]. rewrite orb_false_r. reflexivity.
+Qed.
+
+Lemma poll_parses_eq dest r1 r : stream_buffer (rsp r1) = stream_buffer (rsp r) -> poll_parses dest r1 = poll_parses dest r.
+Proof. intros E. unfold poll_parses. rewrite E. reflexivity. Qed.
+
+(* ---- poll_fn(|cx| poll_input(cx, dest)).await ---- *)
+Definition ai_post (dest : option N) (r : rstate) (w : world) (x : res ((N * bytes + N) * rstate)) : Prop :=
+  match x with
+  | Ok (res, r') w' =>
+      exists dl, acct [] r w dl r' w' /\ pi_case dest dl r (PReady res) r' w' /\
+                 rwriteable r' = rwriteable r || (poll_parses dest r && is_inl (PReady res) && is_final_stream r)
+  | Halt o w' =>
+      (* the state of the Request at the moment the task stopped *)
+      exists r', acct [] r w [] r' w' /\ rwriteable r' = rwriteable r /\
+                 stream_buffer (rsp r') = stream_buffer (rsp r) /\ (o = ODeadlock \/ o = OFuel) /\
+                 (o = ODeadlock -> output_buffer (rsp r') = [] /\ stream_buffer (rsp r') = [] /\ gated w')
+  end.
+
+Theorem await_input_reads : forall fuel dest r w, pinv (rsp r) -> bytes_ok (remaining w) ->
+  ai_post dest r w (await_input maxc fuel dest r w).
+Proof.
+  induction fuel as [|f IH]; intros dest r w Hinv Hrem.
+  { cbn [await_input ai_post]. exists r. split; [apply acct_refl; exact Hinv|]. split; [reflexivity|]. split; [reflexivity|].
+    split; [right; reflexivity|discriminate]. }
+  cbn [await_input].
+  destruct (poll_input maxc (io_fuel w (len (buffer (rsp r)))) dest r w) as [[p r1] w1] eqn:EP.
+  destruct (poll_input_reads (io_fuel w (len (buffer (rsp r)))) dest r w p r1 w1 Hinv Hrem
+              ltac:(rewrite io_fuel_remaining; lia) EP) as (dl & A & C & W).
+  assert (RETRY : forall w1', remaining w1' = remaining w1 -> wlog w1' = wlog w1 -> wscript w1' = wscript w1 ->
+            dl = [] -> stream_buffer (rsp r) = [] -> stream_buffer (rsp r1) = [] -> is_inl p = false ->
+            ai_post dest r w (await_input maxc f dest r1 w1')).
+  { intros w1' Q1 Q2 Q3 -> S0 S1 Hp.
+    assert (Esb : stream_buffer (rsp r1) = stream_buffer (rsp r)) by (rewrite S0, S1; reflexivity).
+    assert (Ewr : rwriteable r1 = rwriteable r) by (rewrite W, Hp, andb_false_r, orb_false_r; reflexivity).
+    pose proof (acct_world _ _ _ _ _ _ w1' A Q1 Q2 Q3) as A'.
+    specialize (IH dest r1 w1' (ac_inv _ _ _ _ _ _ A) ltac:(rewrite Q1; apply (acct_bytes_ok _ _ _ _ _ _ A Hrem))).
+    destruct (await_input maxc f dest r1 w1') as [[res r2] w2|o w2]; cbn [ai_post] in *.
+    - destruct IH as (dl2 & A2 & C2 & W2). exists dl2.
+      split; [change dl2 with ([] ++ dl2); eapply acct_trans0; eassumption|].
+      split; [apply (pi_case_transfer dest dl2 r1 r _ _ _ Esb C2)|].
+      rewrite W2, Ewr, (poll_parses_eq dest r1 r Esb). f_equal. f_equal.
+      apply is_final_stream_eq; [apply (ac_req _ _ _ _ _ _ A)|apply (ac_stream _ _ _ _ _ _ A)].
+    - destruct IH as (r2 & A2 & W2 & S2 & O2 & D2). exists r2.
+      split; [change (@nil N) with (@nil N ++ []); eapply acct_trans0; eassumption|].
+      split; [congruence|]. split; [congruence|]. split; assumption. }
+  destruct p as [x| |].
+  - cbn [ai_post]. exists dl. split; [exact A|]. split; [exact C|exact W].
+  - unfold on_wake. cbn [andb]. destruct C as (C1 & C2 & C3). apply RETRY; try reflexivity; assumption.
+  - destruct C as (C1 & C2 & C3 & C4 & C5). unfold on_block.
+    destruct (negb (stop_at w1 =? 0) && negb (stopped w1)).
+    + apply RETRY; try reflexivity; assumption.
+    + cbn [ai_post]. exists r1. subst dl. split; [exact A|].
+      split; [rewrite W; cbn [is_inl]; rewrite andb_false_r, orb_false_r; reflexivity|].
+      split; [rewrite C3, C4; reflexivity|]. split; [left; reflexivity|]. intros _. split; [exact C2|]. split; assumption.
+Qed.
+
+(* with the fuel the model supplies the loop bound is not reached *)
+Lemma await_input_no_fuel dest r w w' : rgood r -> world_ok w -> await_input maxc (io_fuel w 0) dest r w <> Halt OFuel w'.
+Proof.
+  intros G Wok E. pose proof (await_input_io (fun b => b) maxc dest r w G Wok) as H. rewrite E in H.
+  destruct H as [_ [H|[H _]]]; discriminate H.
+Qed.
+
 End Reads.
